@@ -131,6 +131,53 @@ func c12Monitor(args []string) int {
 	options := []string{"Use_Hash", "Ponder", "Quiescence", "Use_QHash", "Use_SEE", "Use_PromNonQuiet", "Use_PVS", "Use_IID", "Use_Killer", "Use_HistCount",
 		"Use_CounterMove", "Use_Rfp", "Use_NullMove", "Use_Mdp", "Use_Fp", "Use_Lmr", "Use_Lmp", "Use_Ext", "Use_ExtAddDepth", "Use_CheckExt", "Use_ThreatExt",
 		"Eval_Lazy", "Eval_Mobility", "Eval_AdvPiece", "Use_Book"}
+	// a short first game that leaves only a handful of hash entries, then ucinewgame: the next
+	// fixed-depth search must equal the one of a fresh engine (tables of every size, also nearly empty ones)
+	stripNT := func(x string) string {
+		fs := strings.Fields(x)
+		var o []string
+		for i := 0; i < len(fs); i++ {
+			if fs[i] == "nps" || fs[i] == "time" {
+				i++
+				continue
+			}
+			o = append(o, fs[i])
+		}
+		return strings.Join(o, " ")
+	}
+	for k := 0; k < 2; k++ {
+		fen := []string{"r3k2r/p1ppqpb1/bn2pnp1/3PN3/1p2P3/2N2Q1p/PPPBBPPP/R3K2R w KQkq - 0 1", "r1bqkb1r/pp3ppp/2n1pn2/2p5/2pP4/5NP1/PP2PPBP/RNBQ1RK1 w kq - 0 1"}[k]
+		hash := []string{"16", "64", "2", "128"}[rng.Intn(4)]
+		d1 := 1 + rng.Intn(3)
+		d2 := 3 + rng.Intn(2)
+		run := func(first bool) (string, []string) {
+			s := newUciSession()
+			var script []string
+			do := func(c string) { script = append(script, c); s.send(c) }
+			do("setoption name Use_Book value false")
+			do("setoption name Hash value " + hash)
+			if first {
+				do("position fen " + fen)
+				do(fmt.Sprintf("go depth %d", d1))
+				s.waitCount("bestmove", 1, 60*time.Second)
+				do("ucinewgame")
+			}
+			do("position fen " + fen)
+			b := s.count("bestmove")
+			do(fmt.Sprintf("go depth %d", d2))
+			s.waitCount("bestmove", b+1, 120*time.Second)
+			res := stripNT(s.last(fmt.Sprintf("info depth %d", d2)) + " | " + s.last("bestmove"))
+			s.quit()
+			return res, script
+		}
+		a, script := run(true)
+		b, _ := run(false)
+		rep.Cases++
+		rep.Stats["newgame_comparisons"]++
+		if a != b {
+			rep.Violate("ucinewgame-differs-from-fresh-engine", map[string]interface{}{"script": strings.Join(script, " ; "), "seed": seed}, "after ucinewgame: "+a+" ; fresh engine: "+b)
+		}
+	}
 	for sess := 0; sess < n; sess++ {
 		s := newUciSession()
 		var script []string
